@@ -71,6 +71,7 @@ class Ctx(object):
         self.has_join = has_join
         self.js = js                # restrict to the language-neutral fragment
         self.cells_may_be_none = cells_may_be_none
+        self.no_past_end = False    # never reference a field one past the widest record (keeps None out of the output)
 
 
 def field(ctx, table=None, allow_past_end=True, idx=None):
@@ -80,7 +81,7 @@ def field(ctx, table=None, allow_past_end=True, idx=None):
     width = ctx.a_width if table == 'a' else ctx.b_width
     names = ctx.a_names if table == 'a' else ctx.b_names
     if idx is None:
-        hi = width if (allow_past_end and d(st.integers(0, 5)) == 0) else max(width - 1, 0)
+        hi = width if (allow_past_end and not ctx.no_past_end and d(st.integers(0, 5)) == 0) else max(width - 1, 0)
         idx = d(st.integers(0, hi))
     spellings = ['aN', 'aN', 'a[N]']
     if names is not None and idx < len(names):
